@@ -228,7 +228,10 @@ def build_harness(pid, name, harness_srcs, repo_srcs="ALL", cflags=(), ldflags=(
     cached by content hash of (source, all headers, flags), so an unchanged tree
     is not recompiled but any edit is. Returns the path of the executable."""
     inc = gen_config_header()
-    out_dir = os.path.join(BUILD, pid, name)
+    # one object cache per (check, harness, repo tree): runs against scratch trees (VERIF_REPO)
+    # must not disturb runs against /repo
+    tag = "" if os.path.realpath(REPO) == "/repo" else "-" + hashlib.sha256(os.path.realpath(REPO).encode()).hexdigest()[:8]
+    out_dir = os.path.join(BUILD, pid, name + tag)
     os.makedirs(out_dir, exist_ok=True)
     if repo_srcs == "ALL":
         repo_srcs = all_repo_c_sources(exclude)
@@ -281,10 +284,15 @@ def build_harness(pid, name, harness_srcs, repo_srcs="ALL", cflags=(), ldflags=(
             raise BuildError("link failed:\n" + r.stdout[-4000:])
         # keep the object cache small: drop objects/exes of older builds
         keep = set(objs) | {exe}
+        now = time.time()
         for f in os.listdir(out_dir):
             p = os.path.join(out_dir, f)
-            if p not in keep and os.path.isfile(p):
-                os.unlink(p)
+            try:
+                # only files that no concurrently running check can still need
+                if p not in keep and os.path.isfile(p) and now - os.path.getmtime(p) > 7200:
+                    os.unlink(p)
+            except OSError:
+                pass
     return exe
 
 
